@@ -51,6 +51,9 @@ RCONTENTS = XCONTENTS + [
     json.dumps({'r': {'preset': pol('ALLOW_ALL'), 'CERTIFICATE': {}}}),     # mixes sections and object types
     json.dumps([1, 2]),
     json.dumps({'p': pol('ALLOW_OWNER')}),                                  # same text as a definition of XCONTENTS[1].p
+    # round 8 (C18O): policy names are case- and whitespace-sensitive; look-alikes of the reserved names are ordinary names
+    json.dumps({'Default': pol('ALLOW_ALL'), 'PUBLIC': pol('ALLOW_OWNER'), 'q': pol('ALLOW_ALL')}),
+    json.dumps({' default': pol('DISALLOW_ALL'), 'public ': pol('ALLOW_ALL'), 'Default': pol('ALLOW_OWNER'), 'P': pol('ALLOW_ALL')}),
 ]
 
 
